@@ -9,6 +9,14 @@
 //!   J rustoracle <name>                          oracles inside rust-bitcoin (not code under test):
 //!        ControlBlock::verify_taproot_commitment, tap_tweak of an independently computed root,
 //!        bitcoin::taproot::TaprootBuilder, plus structural round trips.
+//!   J trcommit / trwitness / traddr / trleafpk / trdepthlimit   byte-level judges: the Lean BIP341
+//!        specification over real SHA-256 (Spec/Bip341.lean) recomputes root and sibling paths and checks
+//!        every serialized control block, the pair chosen by `get_satisfaction`, scriptPubKey and Bech32m
+//!        address on every network (Spec/Bech32m.lean), the x-only conversion of full keys in leaves,
+//!        and the depth limit.
+//! Input classes besides shapes: trees with REPEATED leaf scripts (labels; `taprootl`/`merklespecl`),
+//! x-only keys, full 33-byte keys of both parities (shared table `ast::full_key`), xpub-derived
+//! wildcard keys (through `derived_descriptor` and through `at_derivation_index`).
 //! Hashes: the harness hashes every subtree of the SHAPE itself with rust-bitcoin
 //! (`TapLeafHash::from_script`, `TapNodeHash::from_node_hashes`) and prints the library's merkle
 //! root / control-block entries as TERMS by reverse lookup in that table; an entry that is not the
@@ -56,6 +64,15 @@ impl Shape {
         }
     }
     fn to_text(&self) -> String { let mut s = String::new(); self.text(&mut 0, &mut s); s }
+    /// the same with the leaf at position i printed as labels[i]
+    fn text_labels(&self, labels: &[usize], next: &mut usize, out: &mut String) {
+        match self {
+            Leaf => { out.push_str(&labels[*next].to_string()); *next += 1; }
+            Node(l, r) => {
+                out.push('{'); l.text_labels(labels, next, out); out.push(','); r.text_labels(labels, next, out); out.push('}');
+            }
+        }
+    }
     /// pre-order walk as the parser sees it: I = `{`-node, L = leaf
     fn ops(&self, out: &mut String) {
         match self {
@@ -143,10 +160,14 @@ fn leaf_text(tmpl: usize, k: &str, id: usize) -> String {
 
 struct Case {
     shape: Shape,
-    text: String,
+    text: String,                   // shape with leaf LABELS (= positions unless `dup`)
+    pos_text: String,               // shape with leaf positions
     n: usize,
-    leaves: Vec<Arc<Ms>>,           // by id
-    tmpl: Vec<usize>,
+    labels: Vec<usize>,             // position -> label (script identity)
+    dup: bool,                      // some label occurs more than once
+    force_commit: bool,             // emit the (large) trcommit line whatever its size
+    leaves: Vec<Arc<Ms>>,           // by position
+    tmpl: Vec<usize>,               // by label
     internal: Pk,
     by_script: HashMap<ScriptBuf, usize>,
     by_ms: HashMap<String, usize>,
@@ -172,7 +193,35 @@ fn make_case(shape: Shape, keys: &mut Keys, rng: &mut Rng, vary: bool) -> Case {
     assert_eq!(by_script.len(), n, "leaf scripts must be pairwise distinct");
     let internal = keys.key(IK_BASE + rng.below(8));
     let text = shape.to_text();
-    Case { shape, text, n, leaves, tmpl, internal, by_script, by_ms }
+    Case { shape, pos_text: text.clone(), text, n, labels: (0..n).collect(), dup: false, force_commit: false, leaves, tmpl, internal, by_script, by_ms }
+}
+
+/// a tree in which the leaf at position i carries script number labels[i] (labels may repeat)
+fn make_dup_case(shape: Shape, labels: Vec<usize>, keys: &mut Keys, rng: &mut Rng, vary: bool) -> Case {
+    let n = shape.n_leaves();
+    assert_eq!(labels.len(), n);
+    let n_labels = labels.iter().max().unwrap() + 1;
+    let mut scripts = vec![];
+    let mut tmpl = vec![];
+    let mut by_script = HashMap::new();
+    let mut by_ms = HashMap::new();
+    for l in 0..n_labels {
+        let t = if vary { rng.below(4) } else { 0 };
+        let k = keys.key(l);
+        let ms = Ms::from_str(&leaf_text(t, &k.to_string(), l)).expect("leaf template parses");
+        by_script.insert(ms.encode(), l);
+        by_ms.insert(ms.to_string(), l);
+        scripts.push(Arc::new(ms));
+        tmpl.push(t);
+    }
+    let leaves = labels.iter().map(|l| scripts[*l].clone()).collect();
+    let mut seen = std::collections::HashSet::new();
+    let dup = labels.iter().any(|l| !seen.insert(*l));
+    let internal = keys.key(IK_BASE + rng.below(8));
+    let mut text = String::new();
+    shape.text_labels(&labels, &mut 0, &mut text);
+    let pos_text = shape.to_text();
+    Case { shape, text, pos_text, n, labels, dup, force_commit: false, leaves, tmpl, internal, by_script, by_ms }
 }
 
 /// bottom-up construction through the public `TapTree::combine`
@@ -216,7 +265,7 @@ fn hash_shape(s: &Shape, c: &Case, next: &mut usize, table: &mut HashMap<TapNode
         Leaf => {
             let script = c.leaves[*next].encode();
             let h = TapNodeHash::from(TapLeafHash::from_script(&script, LeafVersion::TapScript));
-            let t = next.to_string();
+            let t = c.labels[*next].to_string();
             *next += 1;
             table.insert(h, t.clone());
             (h, t)
@@ -225,7 +274,9 @@ fn hash_shape(s: &Shape, c: &Case, next: &mut usize, table: &mut HashMap<TapNode
             let (hl, tl) = hash_shape(l, c, next, table);
             let (hr, tr) = hash_shape(r, c, next, table);
             let h = TapNodeHash::from_node_hashes(hl, hr);
-            let t = format!("{{{},{}}}", tl, tr);
+            // with repeated leaves equal subtrees (up to swapping children) share a hash: print
+            // the textually smaller child first, as the driver does for labelled trees
+            let t = if c.dup && tr < tl { format!("{{{},{}}}", tr, tl) } else { format!("{{{},{}}}", tl, tr) };
             table.insert(h, t.clone());
             (h, t)
         }
@@ -266,7 +317,7 @@ fn run_case(out: &mut Out, c: &Case, keys: &Keys, class: &str) {
     let shape = &c.text;
 
     // ---- construction 1: TapTree::combine --------------------------------------------------
-    if let Node(l, r) = &c.shape {
+    if let (Node(l, r), false) = (&c.shape, c.dup) {
         let mut next = 0;
         let lt = build_combine(l, c, &mut next);
         let rt = build_combine(r, c, &mut next);
@@ -291,7 +342,10 @@ fn run_case(out: &mut Out, c: &Case, keys: &Keys, class: &str) {
         Ok(Err(e)) => format!("ERR:other:{}", e.to_string().replace(' ', "_")),
         Err(_) => "PANIC".into(),
     };
-    out.line(&format!("C tapbuild {}", ops), &ans);
+    if !c.dup { out.line(&format!("C tapbuild {}", ops), &ans); }
+    // the depth limit, judged by the specification (accept iff height <= 128; never a panic)
+    let lim = |s: &str| -> String { if s == "PANIC" { "PANIC".into() } else if s == "ERR" { "ERR".into() } else if s.starts_with("ERR:") { "other".into() } else { "accept".into() } };
+    out.line(&format!("J trdepthlimit {} {} {}", c.pos_text, if by_combine.is_ok() { "accept" } else { "ERR" }, lim(&ans)), "ok");
 
     let tree = match by_combine {
         Ok(t) => t,
@@ -323,7 +377,7 @@ fn run_case(out: &mut Out, c: &Case, keys: &Keys, class: &str) {
         for (m, id) in ids { s = s.replace(m.as_str(), &id.to_string()); }
         s
     });
-    out.line(&format!("C tapfmt {}", depth_only(&tree)), &disp);
+    if !c.dup { out.line(&format!("C tapfmt {}", depth_only(&tree)), &disp); }
     out.line(&format!("J fmtspec {} {}", shape, disp), "ok");
 
     // ---- spend info: merkle root + control blocks as terms ----------------------------------
@@ -340,8 +394,14 @@ fn run_case(out: &mut Out, c: &Case, keys: &Keys, class: &str) {
         }
         s
     });
-    out.line(&format!("C taproot {}", depth_only(&tree)), &spend);
-    out.line(&format!("J merklespec {} {}", shape, spend), "ok");
+    if c.dup {
+        let labels = c.labels.iter().map(|l| l.to_string()).collect::<Vec<_>>().join(",");
+        out.line(&format!("C taprootl {} {}", depth_only(&tree), labels), &spend);
+        out.line(&format!("J merklespecl {} {}", shape, spend), "ok");
+    } else {
+        out.line(&format!("C taproot {}", depth_only(&tree)), &spend);
+        out.line(&format!("J merklespec {} {}", shape, spend), "ok");
+    }
 
     // ---- oracles inside rust-bitcoin -----------------------------------------------------------
     // (1) every control block proves its leaf against the descriptor's real output key
@@ -392,9 +452,15 @@ fn run_case(out: &mut Out, c: &Case, keys: &Keys, class: &str) {
         if osi.output_key() != si.output_key() { return Err("output_key differs from TaprootBuilder".into()); }
         if osi.merkle_root() != si.merkle_root() { return Err("merkle_root differs from TaprootBuilder".into()); }
         for (k, leaf) in si.leaves().enumerate() {
-            let ocb = osi.control_block(&(ScriptBuf::from(leaf.script()), LeafVersion::TapScript))
-                .ok_or(format!("leaf {} unknown to TaprootBuilder", k))?;
-            if &ocb != leaf.control_block() { return Err(format!("leaf {} control block differs", k)); }
+            // rust-bitcoin keeps a SET of merkle branches per (script, version): a script that
+            // occurs several times has several; the leaf's own branch must be one of them
+            let key = (ScriptBuf::from(leaf.script()), LeafVersion::TapScript);
+            let set = osi.script_map().get(&key).ok_or(format!("leaf {} unknown to TaprootBuilder", k))?;
+            if !set.contains(&leaf.control_block().merkle_branch) { return Err(format!("leaf {} branch not among TaprootBuilder's", k)); }
+            if !c.dup {
+                let ocb = osi.control_block(&key).ok_or(format!("leaf {} unknown to TaprootBuilder", k))?;
+                if &ocb != leaf.control_block() { return Err(format!("leaf {} control block differs", k)); }
+            }
         }
         // and the library's own conversion agrees
         let tt = si.to_tap_tree().ok_or("to_tap_tree none".to_string())?;
@@ -454,7 +520,7 @@ fn run_case(out: &mut Out, c: &Case, keys: &Keys, class: &str) {
         let mut ds = vec![];
         c.shape.depths(0, &mut ds);
         let got: Vec<(usize, String)> = named.leaves().map(|l| (l.depth() as usize, l.miniscript().to_string())).collect();
-        let want: Vec<(usize, String)> = (0..c.n).map(|i| (ds[i], leaf_text(c.tmpl[i], &format!("K{}", i), i))).collect();
+        let want: Vec<(usize, String)> = (0..c.n).map(|i| { let l = c.labels[i]; (ds[i], leaf_text(c.tmpl[l], &format!("K{}", l), l)) }).collect();
         if got != want { return Err("leaves after renaming".into()); }
         let inv: HashMap<String, Pk> = keys.names.iter().map(|(k, v)| (v.clone(), *k)).collect();
         let back = named.translate_pk(&mut FromName(&inv)).map_err(|_| "translate back failed".to_string())?;
@@ -462,6 +528,120 @@ fn run_case(out: &mut Out, c: &Case, keys: &Keys, class: &str) {
         Ok(())
     });
     out.line(&format!("J rustoracle translate {} {}", shape, v), "ok");
+
+    // ---- byte-level judges: BIP341 commitment, scriptPubKey, addresses ------------------------
+    emit_byte_judges(out, secp, &tr, Some(&c.shape), &c.pos_text, c.internal, c.dup || c.force_commit);
+}
+
+/// a satisfier that has a (dummy) signature for every key in every leaf and satisfies every
+/// timelock, but has no key-spend signature: `get_satisfaction` must take a script path
+struct AllSigs;
+impl<K: miniscript::MiniscriptKey + miniscript::ToPublicKey> miniscript::Satisfier<K> for AllSigs {
+    fn lookup_tap_leaf_script_sig(&self, _: &K, _: &TapLeafHash) -> Option<miniscript::bitcoin::taproot::Signature> {
+        Some(miniscript::bitcoin::taproot::Signature {
+            signature: miniscript::bitcoin::secp256k1::schnorr::Signature::from_slice(&[0x11; 64]).unwrap(),
+            sighash_type: miniscript::bitcoin::TapSighashType::Default,
+        })
+    }
+    fn check_older(&self, _: miniscript::bitcoin::relative::LockTime) -> bool { true }
+    fn check_after(&self, _: miniscript::bitcoin::absolute::LockTime) -> bool { true }
+}
+
+const NETWORKS: [(Network, &str); 5] = [(Network::Bitcoin, "bitcoin"), (Network::Testnet, "testnet"),
+    (Network::Testnet4, "testnet4"), (Network::Signet, "signet"), (Network::Regtest, "regtest")];
+/// control blocks of one `trcommit` line are limited to this many bytes unless forced
+const COMMIT_BYTES: usize = 48 * 1024;
+
+fn hx(b: &[u8]) -> String { if b.is_empty() { "-".into() } else { b.iter().map(|x| format!("{:02x}", x)).collect() } }
+
+/// root of the shape over the given scripts (by position), hashed with rust-bitcoin
+fn oracle_root(s: &Shape, scripts: &[ScriptBuf], next: &mut usize) -> TapNodeHash {
+    match s {
+        Leaf => { let h = TapNodeHash::from(TapLeafHash::from_script(&scripts[*next], LeafVersion::TapScript)); *next += 1; h }
+        Node(l, r) => { let a = oracle_root(l, scripts, next); let b = oracle_root(r, scripts, next); TapNodeHash::from_node_hashes(a, b) }
+    }
+}
+
+/// `J trcommit` (the Lean BIP341 byte-level specification recomputes root and sibling paths with
+/// real SHA-256 and checks every control block), `J traddr` (scriptPubKey + Bech32m address on
+/// every network, through Descriptor and through Tr), and libsecp's commitment check of every
+/// control block against the ORACLE's output key.  `ik` is the expected x-only internal key,
+/// obtained by the caller without the library.
+fn emit_byte_judges<K>(out: &mut Out, secp: &Secp256k1<miniscript::bitcoin::secp256k1::All>, tr: &Tr<K>,
+    shape: Option<&Shape>, pos_text: &str, ik: XOnlyPublicKey, force: bool)
+where K: miniscript::MiniscriptKey + miniscript::ToPublicKey {
+    let got = catch_unwind(AssertUnwindSafe(|| {
+        let si = tr.spend_info();
+        let mut scripts = vec![];
+        let mut cbs = vec![];
+        for leaf in si.leaves() { scripts.push(ScriptBuf::from(leaf.script())); cbs.push(leaf.control_block().serialize()); }
+        (si.merkle_root(), si.output_key().to_inner(), si.output_key_parity(), si.internal_key(), scripts, cbs)
+    }));
+    let (lroot, lq, lpar, lik, scripts, cbs) = match got {
+        Ok(x) => x,
+        Err(_) => { out.line(&format!("J rustoracle spend-info-nopanic {} fail:PANIC", pos_text), "ok"); return; }
+    };
+    let n = shape.map(|s| s.n_leaves()).unwrap_or(0);
+    if scripts.len() != n || lik != ik {
+        out.line(&format!("J rustoracle spend-info-shape {} fail:{}_leaves_yielded_{}_expected_or_internal_key", pos_text, scripts.len(), n), "ok");
+        return;
+    }
+    let oroot = shape.map(|s| oracle_root(s, &scripts, &mut 0));
+    let (oq, opar) = ik.tap_tweak(secp, oroot);
+    let oq = oq.to_inner();
+    let par = |p: miniscript::bitcoin::secp256k1::Parity| if p == miniscript::bitcoin::secp256k1::Parity::Odd { 1 } else { 0 };
+    out.count(&format!("output-key-parity:{}", if par(opar) == 1 { "odd" } else { "even" }));
+    let total: usize = cbs.iter().map(|c| c.len()).sum();
+    if force || total <= COMMIT_BYTES {
+        out.line(&format!("J trcommit {} {} {} {} {} {} {} {} {}", pos_text,
+            if scripts.is_empty() { "-".to_string() } else { scripts.iter().map(|s| hx(s.as_bytes())).collect::<Vec<_>>().join(",") },
+            hx(&ik.serialize()), hx(&oq.serialize()), par(opar),
+            lroot.map(|h| h.to_string()).unwrap_or("-".into()), hx(&lq.serialize()), par(lpar),
+            if cbs.is_empty() { "-".to_string() } else { cbs.iter().map(|c| hx(c)).collect::<Vec<_>>().join(",") }), "ok");
+    } else {
+        out.count("trcommit-skipped-large");
+    }
+    // scriptPubKey / address, through both entry points, on every network
+    let desc = Descriptor::Tr(tr.clone());
+    for (net, name) in NETWORKS {
+        let a = guard(|| match desc.address(net) { Ok(a) => format!("{} {}", hx(desc.script_pubkey().as_bytes()), a), Err(e) => format!("- ERR:{}", e.to_string().replace(' ', "_")) });
+        out.line(&format!("J traddr descriptor {} {} {}", name, hx(&oq.serialize()), a), "ok");
+        let a = guard(|| format!("{} {}", hx(tr.script_pubkey().as_bytes()), tr.address(net)));
+        out.line(&format!("J traddr tr {} {} {}", name, hx(&oq.serialize()), a), "ok");
+    }
+    // the control block CHOSEN by the satisfier (all signatures available, no key-spend
+    // signature): the witness ends with (script, control block); judged by the specification
+    if let Some(root) = oroot {
+        let w = catch_unwind(AssertUnwindSafe(|| tr.get_satisfaction(&AllSigs)));
+        match w {
+            Ok(Ok((wit, _))) if wit.len() >= 2 => {
+                out.line(&format!("J trwitness {} {} {} {} {}", root, hx(&ik.serialize()), par(opar),
+                    hx(&wit[wit.len() - 2]), hx(&wit[wit.len() - 1])), "ok");
+                let v = verdict(|| {
+                    let sc = ScriptBuf::from(wit[wit.len() - 2].clone());
+                    if !scripts.contains(&sc) { return Err("witness script is not a leaf".into()); }
+                    let cb = miniscript::bitcoin::taproot::ControlBlock::decode(&wit[wit.len() - 1]).map_err(|e| e.to_string())?;
+                    if !cb.verify_taproot_commitment(secp, oq, &sc) { return Err("chosen control block does not commit".into()); }
+                    // the choice is one of the leaves' own (script, control block) pairs
+                    if !scripts.iter().zip(cbs.iter()).any(|(s, c)| *s == sc && *c == wit[wit.len() - 1]) { return Err("chosen pair is not a yielded leaf".into()); }
+                    Ok(())
+                });
+                out.line(&format!("J rustoracle witness-choice {} {}", pos_text, v), "ok");
+            }
+            Ok(Ok(_)) => out.line(&format!("J rustoracle witness-choice {} fail:short_witness", pos_text), "ok"),
+            Ok(Err(e)) => out.line(&format!("J rustoracle witness-choice {} fail:{}", pos_text, e.to_string().replace(' ', "_")), "ok"),
+            Err(_) => out.line(&format!("J rustoracle witness-choice {} fail:PANIC", pos_text), "ok"),
+        }
+    }
+    // libsecp: every control block (re-parsed by rust-bitcoin) commits its script to the oracle's key
+    let v = verdict(|| {
+        for (k, (cb, script)) in cbs.iter().zip(scripts.iter()).enumerate() {
+            let cb = miniscript::bitcoin::taproot::ControlBlock::decode(cb).map_err(|e| format!("leaf {} control block does not parse: {}", k, e))?;
+            if !cb.verify_taproot_commitment(secp, oq, script) { return Err(format!("leaf {} does not commit to the tweaked key", k)); }
+        }
+        Ok(())
+    });
+    out.line(&format!("J rustoracle cb-commit-oracle-key {} {}", pos_text, v), "ok");
 }
 
 /// shapes of height > 128 must be rejected by both constructors (and nothing may panic)
@@ -485,6 +665,10 @@ fn run_too_deep(out: &mut Out, c: &Case) {
     out.line(&format!("J rustoracle reject-too-deep-combine {} {}", shape, v), "ok");
     let v = verdict(|| if ans == "ERR" { Ok(()) } else { Err(format!("from_str gave {}", &ans[..ans.len().min(40)])) });
     out.line(&format!("J rustoracle reject-too-deep-parse {} {}", shape, v), "ok");
+    // the same, judged by the specification's height: both constructors answer ERR, neither panics
+    let comb = match catch_unwind(AssertUnwindSafe(|| build_combine(&c.shape, c, &mut 0))) { Ok(Ok(_)) => "accept", Ok(Err(())) => "ERR", Err(_) => "PANIC" };
+    let prs = if ans == "ERR" || ans == "PANIC" { ans.clone() } else if ans.starts_with("ERR:") { "other".into() } else { "accept".to_string() };
+    out.line(&format!("J trdepthlimit {} {} {}", shape, comb, prs), "ok");
     // the last combine, as a correspondence line: find a subtree pair of height exactly 128 + 1
     fn find<'a>(s: &'a Shape) -> Option<(&'a Shape, &'a Shape)> {
         if let Node(l, r) = s {
@@ -496,7 +680,7 @@ fn run_too_deep(out: &mut Out, c: &Case) {
         // renumber: build the two subtrees on fresh leaves 0..
         let sub = node(l.clone(), r.clone());
         let n = sub.n_leaves();
-        let cc = Case { shape: sub.clone(), text: sub.to_text(), n, leaves: c.leaves[..n].to_vec(), tmpl: c.tmpl[..n].to_vec(),
+        let cc = Case { shape: sub.clone(), text: sub.to_text(), pos_text: sub.to_text(), labels: (0..n).collect(), dup: false, force_commit: false, n, leaves: c.leaves[..n].to_vec(), tmpl: c.tmpl[..n].to_vec(),
             internal: c.internal, by_script: c.by_script.clone(), by_ms: c.by_ms.clone() };
         let mut next = 0;
         if let (Ok(lt), Ok(rt)) = (build_combine(l, &cc, &mut next), build_combine(r, &cc, &mut next)) {
@@ -504,6 +688,174 @@ fn run_too_deep(out: &mut Out, c: &Case) {
             out.line(&format!("C tapcombine {} {}", depth_only(&lt), depth_only(&rt)), &ans);
         }
     }
+}
+
+/* ---------------------------------------------------------------- full keys, derived keys */
+
+fn keyed_tree<K: miniscript::MiniscriptKey>(s: &Shape, leaves: &[Arc<Miniscript<K, Tap>>], next: &mut usize) -> Result<TapTree<K>, ()> {
+    match s {
+        Leaf => { let t = TapTree::leaf(leaves[*next].clone()); *next += 1; Ok(t) }
+        Node(l, r) => { let a = keyed_tree(l, leaves, next)?; let b = keyed_tree(r, leaves, next)?; TapTree::combine(a, b).map_err(|_| ()) }
+    }
+}
+fn keyed_text(s: &Shape, leaf_keys: &[String], next: &mut usize, out: &mut String) {
+    match s {
+        Leaf => { out.push_str(&format!("pk({})", leaf_keys[*next])); *next += 1; }
+        Node(l, r) => { out.push('{'); keyed_text(l, leaf_keys, next, out); out.push(','); keyed_text(r, leaf_keys, next, out); out.push('}'); }
+    }
+}
+fn xonly_of(full: &[u8]) -> XOnlyPublicKey { XOnlyPublicKey::from_slice(&full[full.len() - 32..]).unwrap() }
+
+/// judge one `Tr<K>` whose internal key and `pk(K_i)` leaf keys the CALLER knows as bytes
+/// (33-byte compressed or 32-byte x-only), obtained without the library
+fn run_keyed<K>(out: &mut Out, keys: &Keys, class: &str, tr: &Tr<K>, shape: Option<&Shape>, ik_full: &[u8], leaf_full: &[Vec<u8>])
+where K: miniscript::MiniscriptKey + miniscript::ToPublicKey + miniscript::FromStrKey {
+    out.count(&format!("keyed:{}", class));
+    out.count(&format!("internal-key-prefix:{}", match ik_full.len() { 33 => format!("{:02x}", ik_full[0]), _ => "x-only".into() }));
+    let pos_text = shape.map(|s| s.to_text()).unwrap_or("-".into());
+    // leaf scripts: `<x-only K_i> OP_CHECKSIG`, judged by the specification
+    let scripts = catch_unwind(AssertUnwindSafe(|| tr.spend_info().leaves().map(|l| ScriptBuf::from(l.script())).collect::<Vec<_>>()));
+    match scripts {
+        Ok(scripts) if scripts.len() == leaf_full.len() => {
+            for (k, sc) in leaf_full.iter().zip(scripts.iter()) {
+                out.line(&format!("J trleafpk {} {}", hx(k), hx(sc.as_bytes())), "ok");
+            }
+            // Tr::leaves (no spend info) computes the same scripts
+            let v = verdict(|| {
+                for (i, l) in tr.leaves().enumerate() { if l.compute_script() != scripts[i] { return Err(format!("compute_script of leaf {}", i)); } }
+                Ok(())
+            });
+            out.line(&format!("J rustoracle keyed-compute-script {}:{} {}", class, pos_text, v), "ok");
+        }
+        Ok(scripts) => { out.line(&format!("J rustoracle keyed-leaf-count {}:{} fail:{}_of_{}", class, pos_text, scripts.len(), leaf_full.len()), "ok"); return; }
+        Err(_) => { out.line(&format!("J rustoracle keyed-nopanic {}:{} fail:PANIC", class, pos_text), "ok"); return; }
+    }
+    emit_byte_judges(out, &keys.secp, tr, shape, &pos_text, xonly_of(ik_full), true);
+    let v = verdict(|| {
+        let s = tr.to_string();
+        let back = Tr::<K>::from_str(&s).map_err(|e| format!("reparse {}", e))?;
+        if &back != tr { return Err("Tr differs after to_string/from_str".into()); }
+        if back.spend_info().output_key() != tr.spend_info().output_key() { return Err("output key differs after round trip".into()); }
+        Ok(())
+    });
+    out.line(&format!("J rustoracle keyed-roundtrip {}:{} {}", class, pos_text, v), "ok");
+}
+
+/// `Tr<bitcoin::PublicKey>` with the shared key table (ids 0..9 carry both parities)
+fn run_fullkey_case(out: &mut Out, keys: &Keys, shape: Option<&Shape>, ik: u32, leaf_ids: &[u32], class: &str) {
+    use miniscript::bitcoin::PublicKey;
+    let ikk = crate::ast::full_key(ik);
+    let lk: Vec<PublicKey> = leaf_ids.iter().map(|i| crate::ast::full_key(*i)).collect();
+    let leaf_full: Vec<Vec<u8>> = lk.iter().map(|k| k.to_bytes()).collect();
+    let label = format!("{}:ik{}:{}", class, ik, leaf_ids.iter().map(|i| i.to_string()).collect::<Vec<_>>().join("."));
+    // constructor 1: text
+    let mut text = format!("tr({}", ikk);
+    if let Some(s) = shape {
+        text.push(',');
+        keyed_text(s, &lk.iter().map(|k| k.to_string()).collect::<Vec<_>>(), &mut 0, &mut text);
+    }
+    text.push(')');
+    let parsed = catch_unwind(AssertUnwindSafe(|| Tr::<PublicKey>::from_str(&text)));
+    // constructor 2: Tr::new over TapTree::combine
+    let built = catch_unwind(AssertUnwindSafe(|| -> Result<Tr<PublicKey>, String> {
+        let tree = match shape {
+            None => None,
+            Some(s) => {
+                let leaves: Vec<Arc<Miniscript<PublicKey, Tap>>> = lk.iter()
+                    .map(|k| Miniscript::from_str(&format!("pk({})", k)).map(Arc::new).map_err(|e: miniscript::Error| e.to_string()))
+                    .collect::<Result<_, _>>()?;
+                Some(keyed_tree(s, &leaves, &mut 0).map_err(|_| "combine".to_string())?)
+            }
+        };
+        Tr::new(ikk, tree).map_err(|e| e.to_string())
+    }));
+    let pos_text = shape.map(|s| s.to_text()).unwrap_or("-".into());
+    match (parsed, built) {
+        (Ok(Ok(a)), Ok(Ok(b))) => {
+            out.line(&format!("J rustoracle keyed-parse-eq-new {}:{} {}", label, pos_text,
+                verdict(|| if a == b { Ok(()) } else { Err("Tr::from_str != Tr::new".into()) })), "ok");
+            run_keyed(out, keys, class, &a, shape, &ikk.to_bytes(), &leaf_full);
+            // the same through Descriptor<PublicKey>
+            let v = verdict(|| {
+                let d = Descriptor::<PublicKey>::from_str(&text).map_err(|e| e.to_string())?;
+                if d != Descriptor::Tr(b.clone()) { return Err("Descriptor::from_str != Descriptor::Tr(Tr::new)".into()); }
+                Ok(())
+            });
+            out.line(&format!("J rustoracle keyed-descriptor-eq {}:{} {}", label, pos_text, v), "ok");
+        }
+        (a, b) => {
+            let why = format!("from_str_{}_new_{}", match a { Ok(Ok(_)) => "ok".to_string(), Ok(Err(e)) => e.to_string(), Err(_) => "PANIC".into() },
+                match b { Ok(Ok(_)) => "ok".to_string(), Ok(Err(e)) => e, Err(_) => "PANIC".into() });
+            out.line(&format!("J rustoracle keyed-accepts {}:{} fail:{}", label, pos_text, why.replace(' ', "_")), "ok");
+        }
+    }
+}
+
+/// `Tr<DescriptorPublicKey>` over an xpub with wildcards, derived at `index` two ways
+#[allow(deprecated)]
+fn run_xpub_case(out: &mut Out, keys: &Keys, shape: Option<&Shape>, seed: &[u8; 32], index: u32, origin: bool, class: &str) {
+    use miniscript::bitcoin::bip32::{ChildNumber, Xpriv, Xpub};
+    use miniscript::{DefiniteDescriptorKey, DescriptorPublicKey};
+    let secp = &keys.secp;
+    let master = Xpriv::new_master(Network::Bitcoin, seed).unwrap();
+    let xpub = Xpub::from_priv(secp, &master);
+    let n = shape.map(|s| s.n_leaves()).unwrap_or(0);
+    let keyexpr = |j: usize| -> String {
+        if origin { format!("[{}/86h/0h]{}/{}/*", xpub.fingerprint(), xpub, j) } else { format!("{}/{}/*", xpub, j) }
+    };
+    // independent derivation (rust-bitcoin bip32)
+    let child = |j: usize| -> Vec<u8> {
+        xpub.derive_pub(secp, &[ChildNumber::Normal { index: j as u32 }, ChildNumber::Normal { index }]).unwrap().public_key.serialize().to_vec()
+    };
+    let ik_full = child(0);
+    let leaf_full: Vec<Vec<u8>> = (0..n).map(|j| child(j + 1)).collect();
+    let mut text = format!("tr({}", keyexpr(0));
+    if let Some(s) = shape {
+        text.push(',');
+        keyed_text(s, &(0..n).map(|j| keyexpr(j + 1)).collect::<Vec<_>>(), &mut 0, &mut text);
+    }
+    text.push(')');
+    let pos_text = shape.map(|s| s.to_text()).unwrap_or("-".into());
+    let label = format!("{}:idx{}", class, index);
+    let desc = match catch_unwind(AssertUnwindSafe(|| Descriptor::<DescriptorPublicKey>::from_str(&text))) {
+        Ok(Ok(d)) => d,
+        Ok(Err(e)) => { out.line(&format!("J rustoracle keyed-accepts {}:{} fail:{}", label, pos_text, e.to_string().replace(' ', "_")), "ok"); return; }
+        Err(_) => { out.line(&format!("J rustoracle keyed-accepts {}:{} fail:PANIC", label, pos_text), "ok"); return; }
+    };
+    // (a) Descriptor<bitcoin::PublicKey> via derived_descriptor
+    match catch_unwind(AssertUnwindSafe(|| desc.derived_descriptor(secp, index))) {
+        Ok(Ok(Descriptor::Tr(tr))) => run_keyed(out, keys, &format!("{}-derived", class), &tr, shape, &ik_full, &leaf_full),
+        other => { out.line(&format!("J rustoracle keyed-derive {}:{} fail:{}", label, pos_text, match other { Err(_) => "PANIC".to_string(), Ok(Err(e)) => e.to_string().replace(' ', "_"), _ => "not_tr".into() }), "ok"); }
+    }
+    // (b) Descriptor<DefiniteDescriptorKey>: keys are derived lazily inside spend_info
+    match catch_unwind(AssertUnwindSafe(|| desc.at_derivation_index(index))) {
+        Ok(Ok(Descriptor::Tr(tr))) => {
+            let tr: Tr<DefiniteDescriptorKey> = tr;
+            run_keyed(out, keys, &format!("{}-definite", class), &tr, shape, &ik_full, &leaf_full);
+        }
+        other => { out.line(&format!("J rustoracle keyed-definite {}:{} fail:{}", label, pos_text, match other { Err(_) => "PANIC".to_string(), Ok(Err(e)) => e.to_string().replace(' ', "_"), _ => "not_tr".into() }), "ok"); }
+    }
+}
+
+/// label assignments with repetitions for a tree of n leaves
+fn dup_labelings(n: usize, rng: &mut Rng, how_many: usize) -> Vec<Vec<usize>> {
+    let mut v: Vec<Vec<usize>> = vec![];
+    if n >= 2 {
+        v.push(vec![0; n]);                                                // all the same script
+        v.push((0..n).map(|i| if i == n - 1 { 0 } else { i }).collect());  // first = last
+        v.push((0..n).map(|i| i / 2).collect());                           // adjacent pairs
+        v.push((0..n).map(|i| i % 2).collect());                           // alternating
+    }
+    for _ in 0..how_many {
+        let k = 1 + rng.below(n.max(2) - 1);
+        let mut l: Vec<usize> = (0..n).map(|_| rng.below(k)).collect();
+        // labels must be 0..max without gaps for make_dup_case's table; gaps are harmless there
+        if l.iter().all(|x| *x != 0) { l[0] = 0; }
+        v.push(l);
+    }
+    v.retain(|l| { let mut s = std::collections::HashSet::new(); l.iter().any(|x| !s.insert(*x)) });
+    v.sort(); v.dedup();
+    v
 }
 
 pub fn run(out: &mut Out, thorough: bool, seed: u64) {
@@ -579,6 +931,83 @@ pub fn run(out: &mut Out, thorough: bool, seed: u64) {
         if s.height() > 128 { out.count("random-skipped-too-deep"); continue; }
         let c = make_case(s, &mut keys, &mut rng, true);
         run_case(out, &c, &keys, "random");
+    }
+    // 4b. REPEATED leaf scripts (same script at several positions, same or different depths)
+    {
+        let max_n = if thorough { 6 } else { 5 };
+        for n in 2..=max_n {
+            for s in all_shapes(n, &mut memo) {
+                for labels in dup_labelings(n, &mut rng, if thorough { 3 } else { 1 }) {
+                    let c = make_dup_case(s.clone(), labels, &mut keys, &mut rng, false);
+                    run_case(out, &c, &keys, "repeated-leaves");
+                }
+            }
+        }
+        for i in 0..(if thorough { 300 } else { 40 }) {
+            let n = 2 + rng.below(if i % 5 == 0 { 60 } else { 14 });
+            let s = random_shape(n, &mut rng);
+            if s.height() > 128 { continue; }
+            let pool = 1 + rng.below(4);
+            let labels: Vec<usize> = { let mut l: Vec<usize> = (0..n).map(|_| rng.below(pool)).collect(); l[0] = 0;
+                // make the label set gap-free
+                let mut map = HashMap::new(); for x in l.iter_mut() { let k = map.len(); *x = *map.entry(*x).or_insert(k); } l };
+            let c = make_dup_case(s, labels, &mut keys, &mut rng, i % 2 == 0);
+            if c.dup { run_case(out, &c, &keys, "repeated-leaves-random"); }
+        }
+        // deep trees whose leaves are all the same script
+        for s in [left_comb(128), right_comb(127), caterpillar(128, &mut rng, false, 128)] {
+            let n = s.n_leaves();
+            let c = make_dup_case(s, vec![0; n], &mut keys, &mut rng, false);
+            run_case(out, &c, &keys, "repeated-leaves-deep");
+            if !thorough { break; }
+        }
+    }
+    // 4c. byte-level commitment of the deepest trees with distinct leaves (large lines: a few)
+    for s in [right_comb(128), left_comb(128)] {
+        let mut c = make_case(s, &mut keys, &mut rng, false);
+        c.force_commit = true;
+        run_case(out, &c, &keys, "comb-128-bytes");
+    }
+    // 4d. full 33-byte keys (both parities: shared key table 0..9) as internal key and in leaves
+    {
+        for ik in 0..10u32 { run_fullkey_case(out, &keys, None, ik, &[], "fullkey-keyonly"); }
+        let max_n = if thorough { 6 } else { 4 };
+        for ik in 0..10u32 {
+            for n in 1..=max_n {
+                for s in all_shapes(n, &mut memo) {
+                    // leaf keys: distinct ids different from the internal key ...
+                    let mut ids: Vec<u32> = (0..n as u32).map(|p| (ik + 1 + p) % 10).collect();
+                    // ... except that sometimes a leaf reuses the internal key or another leaf's key
+                    match rng.below(4) { 0 => ids[0] = ik, 1 if n >= 2 => ids[n - 1] = ids[0], _ => {} }
+                    run_fullkey_case(out, &keys, Some(&s), ik, &ids, "fullkey");
+                }
+            }
+        }
+        for _ in 0..(if thorough { 200 } else { 24 }) {
+            let n = 5 + rng.below(20);
+            let s = random_shape(n, &mut rng);
+            let ids: Vec<u32> = (0..n).map(|_| rng.below(100) as u32).collect();
+            run_fullkey_case(out, &keys, Some(&s), rng.below(100) as u32, &ids, "fullkey-random");
+        }
+        run_fullkey_case(out, &keys, Some(&right_comb(128)), 0, &(0..129).map(|i| (i % 100) as u32).collect::<Vec<_>>(), "fullkey-comb128");
+    }
+    // 4e. xpub-derived keys (wildcards), derived two ways
+    {
+        let n_seeds = if thorough { 12 } else { 3 };
+        for k in 0..n_seeds {
+            let mut sd = [0u8; 32];
+            for (i, b) in sd.iter_mut().enumerate() { *b = (rng.next() >> (i % 8)) as u8; }
+            let idxs: Vec<u32> = vec![0, 1, 1 + rng.below(1000) as u32, (1u32 << 31) - 1];
+            run_xpub_case(out, &keys, None, &sd, idxs[k % 4], k % 2 == 0, "xpub-keyonly");
+            for n in 1..=(if thorough { 5 } else { 4 }) {
+                for s in all_shapes(n, &mut memo) {
+                    let idx = idxs[rng.below(4)];
+                    run_xpub_case(out, &keys, Some(&s), &sd, idx, rng.coin(), "xpub");
+                }
+            }
+            let s = random_shape(6 + rng.below(10), &mut rng);
+            run_xpub_case(out, &keys, Some(&s), &sd, idxs[2], false, "xpub-random");
+        }
     }
     // 5. too deep: must be rejected
     let mut deep = vec![left_comb(129), right_comb(129), left_comb(130), right_comb(200), node(left_comb(128), Leaf), node(Leaf, right_comb(128)), node(right_comb(128), left_comb(3))];
